@@ -69,12 +69,12 @@ def serrJson : SErr → String
 
 def errJson (e : PErr) : String :=
   match e with
-  | .unexpected loc _ actual _ =>
+  | .unexpected loc _ actual site =>
     let a := match actual with
       | some (_, t) => tokJson t
       | none => "null"
-    s!"\{\"kind\":\"Unexpected\",\"line\":{loc.1},\"col\":{loc.2},\"actual\":{a}}"
-  | .other loc _ _ => s!"\{\"kind\":\"Else\",\"line\":{loc.1},\"col\":{loc.2}}"
+    s!"\{\"kind\":\"Unexpected\",\"line\":{loc.1},\"col\":{loc.2},\"actual\":{a},\"x\":\{\"site\":{jsonStr site.toList}}}"
+  | .other loc reason site => s!"\{\"kind\":\"Else\",\"line\":{loc.1},\"col\":{loc.2},\"x\":\{\"site\":{jsonStr site.toList},\"reason\":{jsonStr reason.toList}}}"
   | .panic _ => "{\"kind\":\"Panic\"}"
   | .fuel => "{\"kind\":\"Fuel\"}"
 
